@@ -121,7 +121,7 @@ def make_case(index, rng, tier):
         clients.append({"t": round(t, 2), "paths": paths, "gap": round(rng.uniform(0.05, 0.6), 2)})
         t += rng.uniform(0.0, 0.15) if concurrent else rng.uniform(0.3, 1.2)
     return {"family": fam, "kind": kind, "max_requests": mr, "jitter": rng.choice([0, 0, 1, 2]), "clients": clients,
-            "threads": rng.randrange(1, 4), "keepalive": rng.choice([0, 2, 2]), "workers": rng.randrange(1, 3),
+            "threads": rng.randrange(1, 4), "keepalive": rng.choice([0, 2, 2]), "workers": rng.randrange(1, 3), "binds": rng.choice([1, 1, 2]),
             "buggify": {"pyticks": rng.randrange(3) == 0, "short_recv": rng.randrange(4) == 0, "fork_child_first": rng.randrange(2) == 0}, "preempt": rng.randrange(0, 4)}
 
 
@@ -151,11 +151,13 @@ def run_worker(case, choices):
         sim.py_ticks = True          # eval-breaker points inside gunicorn's Python code are delivery / pre-emption points too
     kind = case["kind"]
     w = W.WorkerWorld(sim, kind, {"timeout": 30, "graceful_timeout": 5, "keepalive": case["keepalive"], "threads": case["threads"],
-                                  "worker_connections": 20, "max_requests": case["max_requests"], "max_requests_jitter": case["jitter"]})
+                                  "worker_connections": 20, "max_requests": case["max_requests"], "max_requests_jitter": case["jitter"]},
+                      extra_addrs=[("127.0.0.1", 8001)] if case.get("binds", 1) == 2 else ())
     for i in range(case["preempt"]):
         sim.preempt_at.add(1 + choices.choose(3000, "preempt"))
     p = w.start_worker()
-    cl = [w.add_client("c%d" % i, client_script(c)) for i, c in enumerate(case["clients"])]
+    cl = [w.add_client("c%d" % i, client_script(c), addr=w.addrs[1] if len(w.addrs) > 1 and i % 3 == 0 else None)
+          for i, c in enumerate(case["clients"])]
     state = {"limit_at": None, "open_at_limit": None, "accepts_after": [], "loop_seen": None, "open": {}}
 
     def observer(s, actor, kind_, detail):
@@ -165,8 +167,13 @@ def run_worker(case, choices):
             state["open_at_limit"] = len([fd for fd, e in p.fds.items() if e.ofd.kind == "stream"])
             s.probe("limit_reached")
         elif kind_ == "accept" and actor == "worker":
+            state["open"][detail[1]] = detail[0]
             if state["limit_at"] is not None:
                 state["accepts_after"].append((s.now, detail[0]))
+        elif kind_ == "sel-unregister" and actor == "worker" and detail in state["open"]:
+            state.setdefault("dispatched", set()).add(state["open"][detail])      # handed to the thread pool
+        elif kind_ == "handle-begin" and detail in state["open"]:
+            state.setdefault("begun", set()).add(state["open"][detail])
     sim.observers.append(observer)
     ctx = lambda: "family=worker kind=%s max_requests=%d jitter=%d drawn_limit=%r threads=%d keepalive=%s clients=%r t=%.2f" % (
         kind, case["max_requests"], case["jitter"], getattr(w.worker, "max_requests", None), case["threads"], case["keepalive"],
@@ -199,9 +206,9 @@ def run_worker(case, choices):
             if kind == "gevent" and len(late) > len(late_ok):
                 res.violate("C18:worker:gevent:accept-after-limit", "the gevent worker accepted connections more than one heartbeat period (1 s) "
                             "after reaching its limit at t=%.2f: %r; %s" % (state["limit_at"], late[:3], ctx()))
-            if kind == "gthread" and len(late) > 1:
+            if kind == "gthread" and len(late) > len(w.addrs):
                 res.violate("C18:worker:gthread:accept-after-limit", "the threaded worker accepted %d connections after reaching its limit "
-                            "(at most the main-loop iteration in progress may accept one more): %r; %s" % (len(late), late[:3], ctx()))
+                            "(at most the main-loop iteration in progress may accept one more per listener): %r; %s" % (len(late), late[:3], ctx()))
             if p.state == "running" and sim.now > state["limit_at"] + 8.0:
                 res.violate("C18:worker:%s:no-exit-after-limit" % kind, "limit reached at t=%.2f, the worker is still running at t=%.2f; %s"
                             % (state["limit_at"], sim.now, ctx()))
@@ -222,6 +229,10 @@ def run_worker(case, choices):
                     res.violate("C18:worker:%s:in-flight-request-lost" % kind,
                                 "client %s: the worker had started reading its request (t=%.2f) but the response is %r; log=%r; %s"
                                 % (c.name, fr, first and (first["status"], first["complete"], first.get("rst"), first.get("eof")), c.log[-4:], ctx()))
+                elif srv.name in state.get("dispatched", ()) and srv.name not in state.get("begun", ()):
+                    res.violate("C18:worker:%s:dropped:dispatched-then-cancelled" % kind,
+                                "client %s: its connection had been handed to the thread pool (request queued behind busy threads) and was "
+                                "closed unanswered when the worker recycled; log=%r; %s" % (c.name, c.log[-4:], ctx()))
                 else:
                     res.violate("C18:worker:%s:dropped:accepted-unread" % kind,
                                 "client %s: its fresh connection was accepted at t=%.2f and closed unanswered when the worker recycled "
@@ -250,13 +261,15 @@ def run_full(case, choices):
     kind = case["kind"]
     # timeout 6: a recycled worker that exits before the master registered it (fork/SIGCHLD race) is only forgotten by
     # the timeout scan, i.e. replaced up to `timeout` seconds later
-    cfg = {"workers": case["workers"], "timeout": 6, "graceful_timeout": 5, "bind": ["127.0.0.1:8000"], "proc_name": "m0",
+    cfg = {"workers": case["workers"], "timeout": 6, "graceful_timeout": 5,
+           "bind": ["127.0.0.1:8000"] + (["127.0.0.1:8001"] if case.get("binds", 1) == 2 else []), "proc_name": "m0",
            "max_requests": case["max_requests"], "max_requests_jitter": case["jitter"], "threads": case["threads"],
            "keepalive": case["keepalive"], "worker_connections": 20}
     w = master.World(sim, cfg)
     host = w.use_real_workers(kind)
     m = w.start_master()
-    cl = [w.add_client("c%d" % i, client_script(c)) for i, c in enumerate(case["clients"])]
+    cl = [w.add_client("c%d" % i, client_script(c), addr=("127.0.0.1", 8001) if case.get("binds", 1) == 2 and i % 3 == 0 else None)
+          for i, c in enumerate(case["clients"])]
     state = {"worker_exits": [], "closed_listener": []}
 
     def observer(s, actor, kind_, detail):
